@@ -73,6 +73,10 @@ struct Run<'c> {
     strides: Vec<usize>,
     span: usize,
     fails: Vec<Fail>,
+    /// driver mode (cases without expectations): observed results / remaining items, logged for IterTrace.tla
+    driver: bool,
+    obs: Vec<Value>,
+    obs_remaining: Option<(usize, usize, Vec<u32>)>,
 }
 
 /// Drive one iterator through the call sequence.
@@ -176,6 +180,13 @@ fn drive<T: CellT, I>(
             Ok(v) => v,
             Err(()) => json!({"k": "panic"}),
         };
+        if run.driver {
+            run.obs.push(got.clone());
+            if got["k"] == "panic" && op != "index" {
+                return;
+            }
+            continue;
+        }
         let ok = if !T::HAS_VALUE {
             exp["k"] == got["k"] && (exp["k"] != "val" || exp["v"] == got["v"]) && got.get("size_hint").is_none()
                 && (exp["k"] != "fold" || exp["n"] == got["n"])
@@ -192,7 +203,7 @@ fn drive<T: CellT, I>(
     }
     // what is left must be exactly the rest of the ideal sequence
     if let Some(mut i) = it.take() {
-        let expn = case["nremaining"].as_u64().unwrap() as usize;
+        let expn = if run.driver { 1 << 20 } else { case["nremaining"].as_u64().unwrap() as usize };
         let got_len = i.len();
         let mut ids: Vec<u32> = Vec::new();
         let mut cnt = 0usize;
@@ -205,6 +216,13 @@ fn drive<T: CellT, I>(
                 }
             }
         });
+        if run.driver {
+            run.obs_remaining = Some((got_len, if r.is_err() { usize::MAX } else { cnt }, ids));
+            for (j, item) in kept.into_iter().enumerate() {
+                item.write(WBASE + 16 * j as u32);
+            }
+            return;
+        }
         let exp_ids = u32s(&case["remaining"]);
         let bad = r.is_err() || cnt != expn || got_len != expn || (T::HAS_VALUE && ids != exp_ids);
         if bad {
@@ -212,6 +230,8 @@ fn drive<T: CellT, I>(
                 "observed_n": cnt, "expected": exp_ids, "observed": ids, "panicked": r.is_err()})));
             return;
         }
+    } else if run.driver {
+        // consumed by count / last / fold / rfold
     } else if !case["done"].as_bool().unwrap_or(false) {
         run.fails.push(Fail::new(run.calls.len(), "harness", json!({"note": "iterator consumed but the specification says it is not"})));
     }
@@ -287,12 +307,12 @@ fn on_leaf<T: CellT>(run: &mut Run<'_>, leaf: Leaf<'_, T>, t: &str, c: usize, ca
 }
 
 /// Run one iterator-family case (all concrete instantiations of its Big arguments).
-pub fn run_case<T: CellT>(case: &Value) -> Vec<Fail> {
+pub fn run_case<T: CellT>(case: &Value, log: &mut Vec<Value>) -> Vec<Fail> {
     let calls = case["calls"].as_array().unwrap();
     let nbig = calls.iter().filter(|c| c["a"].get("n").and_then(|v| v.as_u64()).map(is_big).unwrap_or(false)).count();
     let variants = if nbig > 0 { 6 } else { 1 };
     for variant in 0..variants {
-        let f = run_variant::<T>(case, variant);
+        let f = run_variant::<T>(case, variant, log);
         if !f.is_empty() {
             return f;
         }
@@ -300,7 +320,7 @@ pub fn run_case<T: CellT>(case: &Value) -> Vec<Fail> {
     Vec::new()
 }
 
-fn run_variant<T: CellT>(case: &Value, variant: usize) -> Vec<Fail> {
+fn run_variant<T: CellT>(case: &Value, variant: usize, log: &mut Vec<Value>) -> Vec<Fail> {
     ledger::reset();
     canary::reset();
     fault::disarm();
@@ -318,7 +338,9 @@ fn run_variant<T: CellT>(case: &Value, variant: usize) -> Vec<Fail> {
         let ext = (w.e.0 - w.s.0, w.e.1 - w.s.1);
         size = if ext.0 == 0 || ext.1 == 0 { (0, 0) } else { ext };
     }
-    let mut run = Run { calls, variant, strides: vec![nc.max(1), size.0.max(1), 1], span: nc * nr + 2, fails: Vec::new() };
+    let driver = calls.iter().any(|c| c["x"].is_null());
+    let mut run = Run { calls, variant, strides: vec![nc.max(1), size.0.max(1), 1], span: nc * nr + 2, fails: Vec::new(),
+                        driver, obs: Vec::new(), obs_remaining: None };
 
     const EXTRA: usize = 2;
     let items: Vec<T> = make_items(&ids);
@@ -357,6 +379,7 @@ fn run_variant<T: CellT>(case: &Value, variant: usize) -> Vec<Fail> {
         }
     });
     let mut fails = std::mem::take(&mut run.fails);
+    let (obs, obs_remaining) = (std::mem::take(&mut run.obs), run.obs_remaining.take());
     if built.is_err() {
         fails.push(Fail::new(0, "create", json!({"note": "creating the receiver or the iterator panicked"})));
     }
@@ -372,7 +395,15 @@ fn run_variant<T: CellT>(case: &Value, variant: usize) -> Vec<Fail> {
             o[..nc * nr].to_vec()
         }
     };
-    if T::HAS_VALUE && fails.is_empty() && root_now != u32s(&case["final_root"]) {
+    if driver {
+        let calls_obs: Vec<Value> = calls.iter().zip(obs.iter()).map(|(c, r)| json!({"op": c["op"], "a": c["a"], "res": r})).collect();
+        let (rl, rn, rids) = obs_remaining.unwrap_or((0, 0, Vec::new()));
+        log.push(json!({"ev": "iter", "nc": nc, "nr": nr, "ids": ids, "stack": case["stack"], "kind": case["kind"], "calls": calls_obs,
+                        "complete": calls_obs.len() == calls.len(), "consumed": rn == 0 && rl == 0 && rids.is_empty() && calls_obs.last().map(|c| matches!(c["op"].as_str(), Some("count") | Some("last") | Some("fold") | Some("rfold"))).unwrap_or(false),
+                        "rem_len": rl.min(1 << 20), "rem_n": rn.min(1 << 20), "remaining": rids, "final_root": root_now,
+                        "built": built.is_ok()}));
+    }
+    if !driver && T::HAS_VALUE && fails.is_empty() && root_now != u32s(&case["final_root"]) {
         fails.push(Fail::new(n, "write_through", json!({"expected_root": case["final_root"], "observed_root": root_now})));
     }
     let _ = window_of;
